@@ -135,7 +135,15 @@ def shard(binpath, seed, sh, n):
                 b[pos // 8] ^= 1 << (pos % 8)
                 w["signatures"][0]["sig"] = bytes(b).hex()
             elif st == "edited":
-                w["signed"]["byproducts"]["stdout"] = "tampered"
+                # one value-changing edit of the signed link: captured output, an artifact added (with or without
+                # digests), a digest, the command, a path respelled
+                opts = [e for e in scen.single_edits(w["signed"], rng, None)
+                        if e[0].startswith(("add_member@/materials", "add_member@/products", "add_member@/byproducts", "set@/materials",
+                                            "set@/products", "set@/command", "set@/byproducts", "respell_key@"))]
+                if opts and rng.random() < 0.75:
+                    w["signed"] = rng.choice(opts)[1]
+                else:
+                    w["signed"]["byproducts"]["stdout"] = "tampered"
             elif st == "cosigned_broken_own":
                 for sg in w["signatures"]:
                     if sg["keyid"] == W.kid(k):
